@@ -183,6 +183,9 @@ enum Inject {
     /// may not write to (no temporary file can be created there), while the existing destination
     /// file itself is writable
     ReadOnlyDir,
+    /// the same environment, and on top of it a fault at the k-th output operation (should the
+    /// creator find a way to write at all)
+    ReadOnlyDirIo { k: u64, decision: IoDecision },
 }
 
 impl Inject {
@@ -205,9 +208,19 @@ impl Inject {
             Inject::InputErr { call } => format!("inputerr:{call}"),
             Inject::Fsize { limit, ignore_signal } => format!("fsize:{limit}:{}", if *ignore_signal { "efbig" } else { "kill" }),
             Inject::ReadOnlyDir => "rodir".into(),
+            Inject::ReadOnlyDirIo { k, decision } => {
+                let inner = Inject::Io { k: *k, decision: *decision }.encode();
+                format!("rodir+{inner}")
+            }
         }
     }
     fn decode(s: &str) -> Option<Inject> {
+        if let Some(inner) = s.strip_prefix("rodir+") {
+            return match Inject::decode(inner)? {
+                Inject::Io { k, decision } => Some(Inject::ReadOnlyDirIo { k, decision }),
+                _ => None,
+            };
+        }
         let p: Vec<&str> = s.split(':').collect();
         Some(match p[0] {
             "none" => Inject::None,
@@ -239,6 +252,7 @@ impl Inject {
             Inject::Fsize { ignore_signal: false, .. } => "rlimit-fsize-kill",
             Inject::Fsize { ignore_signal: true, .. } => "rlimit-fsize-efbig",
             Inject::ReadOnlyDir => "destination-directory-not-writable",
+            Inject::ReadOnlyDirIo { .. } => "destination-directory-not-writable+io-fault",
             Inject::Io { decision, .. } => match decision {
                 IoDecision::Fail(_) => "io-error",
                 IoDecision::Interrupted => "interrupted",
@@ -322,8 +336,14 @@ pub fn child_main(args: &Args) -> ! {
             hooks.set_plan(Some(IoPlan::Record));
             opts.sim_cfg.err_at_call = Some(*call);
         }
-        Inject::ReadOnlyDir => {
-            hooks.set_plan(Some(IoPlan::Record));
+        Inject::ReadOnlyDir | Inject::ReadOnlyDirIo { .. } => {
+            match &inject {
+                Inject::ReadOnlyDirIo { k, decision } => hooks.set_plan(Some(IoPlan::At {
+                    k: *k,
+                    decision: *decision,
+                })),
+                _ => hooks.set_plan(Some(IoPlan::Record)),
+            }
             // what the harness itself needs in the directory exists beforehand
             let inputs = case_dir.join(format!("{NAME}.inputs"));
             let _ = std::fs::create_dir_all(&inputs);
@@ -591,6 +611,12 @@ fn injections(s: &Scenario, r: &Reference, tier: Tier) -> Vec<Inject> {
     }
     if s.preexisting && !s.sim_source {
         out.push(Inject::ReadOnlyDir);
+        for k in 0..r.ops.len() as u64 {
+            out.push(Inject::ReadOnlyDirIo {
+                k,
+                decision: if k % 2 == 0 { IoDecision::DieBefore } else { IoDecision::Fail(28) },
+            });
+        }
     }
     let n_benign = if tier == Tier::Quick { 6 } else { 40 };
     for j in 0..n_benign {
@@ -798,6 +824,8 @@ pub fn worker_main(args: &Args, w: usize, n: usize) -> ! {
                 Inject::Fsize { .. } => status != "ok",
                 // the directory refused the creator's temporary file if creation did not succeed
                 Inject::ReadOnlyDir => status != "ok",
+                // fired = the armed operation was reached although the directory is not writable
+                Inject::ReadOnlyDirIo { .. } => fired.is_some(),
                 Inject::None => false,
             };
             let (violation, state) = judge(s, inject, &status, &case_dir, &new_ref, old_ref.as_ref());
